@@ -335,11 +335,31 @@ fn case(src: &mut Src, ctx: &mut Ctx) -> Result<(), Fail> {
             (Some(_), Some(s)) => s,
             _ => 0,
         };
-        let mut sa = mk(irs, Some(p.iss.wrapping_add(1)), SYN, src.u16());
-        sa.opts = syn_opts.clone();
-        let out = bed.deliver(&sa)?;
-        for s in &out {
-            p.observe(s)?;
+        let w0 = src.u16();
+        if (stream_seed >> 21) & 3 == 0 {
+            // simultaneous open (one active open in four; decided from bits of the payload seed, no
+            // further draw): the peer's SYN crosses the socket's and carries no ACK; the socket
+            // answers SYN|ACK, the peer acknowledges that. What was negotiated must be the same as
+            // in an ordinary open.
+            let mut s1 = mk(irs, None, SYN, w0);
+            s1.opts = syn_opts.clone();
+            let out = bed.deliver(&s1)?;
+            for s in &out {
+                p.observe(s)?;
+            }
+            let a = mk(irs.wrapping_add(1), Some(p.iss.wrapping_add(1)), 0, w0);
+            let out = bed.deliver(&a)?;
+            for s in &out {
+                p.observe(s)?;
+            }
+            ctx.label("simultaneous-open");
+        } else {
+            let mut sa = mk(irs, Some(p.iss.wrapping_add(1)), SYN, w0);
+            sa.opts = syn_opts.clone();
+            let out = bed.deliver(&sa)?;
+            for s in &out {
+                p.observe(s)?;
+            }
         }
     }
     p.established = true;
@@ -575,7 +595,7 @@ pub fn prop() -> Prop {
         parts: vec![Part { name: "receiver", case, quick: 200_000, thorough: 5_000_000 }],
         phases: vec![],
         smoltcp_panic_is_violation: true,
-        rule: "one TCP socket (rx buffer 1..=200000, listen or connect, IPv4/IPv6, peer ISN biased to wrap points, handshake options drawn) fed by a scripted peer that owns a fixed byte stream and sends <=200 segments placed relative to the window the socket currently advertises (old, left-overlapping, in order, hole-creating, straddling/just beyond/far beyond the right edge, with FIN only at the end of the stream, and text placed beyond that FIN once it has been sent - during the run and again after end-of-stream was reported), interleaved with application reads and time advances; oracle = reference receiver built from the segments delivered and the windows read off the socket's own emitted segments by an independent TCP decoder; non-trivial = at least one data segment partly outside the window or overlapping delivered data, and at least one application read; distinct by digest of (config, segment list)",
+        rule: "one TCP socket (rx buffer 1..=200000, listen, connect or simultaneous open, IPv4/IPv6, peer ISN biased to wrap points, handshake options drawn) fed by a scripted peer that owns a fixed byte stream and sends <=200 segments placed relative to the window the socket currently advertises (old, left-overlapping, in order, hole-creating, straddling/just beyond/far beyond the right edge, with FIN only at the end of the stream, and text placed beyond that FIN once it has been sent - during the run and again after end-of-stream was reported), interleaved with application reads and time advances; oracle = reference receiver built from the segments delivered and the windows read off the socket's own emitted segments by an independent TCP decoder; non-trivial = at least one data segment partly outside the window or overlapping delivered data, and at least one application read; distinct by digest of (config, segment list)",
         assumptions: vec![
             "independent IPv4/IPv6/TCP codec in vkit::indep",
             "a byte counts as 'arrived in window' if any delivered segment carried it while its sequence number was below the highest right edge advertised so far (necessary condition only)",
